@@ -47,7 +47,7 @@ def time_names(spec, meth):
     return names
 
 
-def grid_spec_formula(spec, meth, orc):
+def grid_spec_formula(spec, meth, orc, all_bounds=False):
     """C06 as a formula over the time handles: declared partition + min/max on every interval
     whose length is (a function of) a decision variable.
     For non-localised fixed grids the node times are t0 + T*n_k by construction (the normalised
@@ -82,9 +82,9 @@ def grid_spec_formula(spec, meth, orc):
             f.append(ca.tz(ca.MX(meth.T_local[k]).e[0]) == ca.tz(h[k]))
     lo, hi = g.get("min", 0), g.get("max", float("inf"))
     T_is_decision = (not ca.isnum(T)) and bool(ca._consts(T) & tn)
-    if T_is_decision or kind == "free":
+    if T_is_decision or kind == "free" or all_bounds:
         for k in range(N):
-            if ca.isnum(h[k]) or not (ca._consts(h[k]) & tn):
+            if (ca.isnum(h[k]) or not (ca._consts(h[k]) & tn)) and not all_bounds:
                 continue
             f.append(ca.tz(h[k]) >= ca.tz(ca.num(lo)))
             if hi != float("inf"):
@@ -167,7 +167,10 @@ def check_nlp(spec, parts=("dynamics", "placement", "frame", "objective"), inst=
         base = "%s|sampling_method:SamplingMethod.add_coupling_constraints" % inst
         c.prove(base + ":ensures:coupling-rows-imply-declared-partition", z3.Implies(Rf, G),
                 detail="%d coupling rows" % len(coupling))
-        c.prove(base + ":frame:coupling-rows-implied-by-declared-partition", z3.Implies(G, Rf))
+        # nothing beyond the declaration: the rows follow from the declared partition together with
+        # the declared min/max on every interval
+        Gall = grid_spec_formula(spec, meth, orc, all_bounds=True)
+        c.prove(base + ":frame:coupling-rows-implied-by-declared-partition", z3.Implies(Gall, Rf))
     if "grid" in parts:
         # the grid the method uses is the one the oracle derives from the handles
         cg = ca.MX(meth.control_grid)
